@@ -254,7 +254,7 @@ def hist_bfs() -> Dict[str, Any]:
 
 
 # ------------------------------------------------------------------ (b), (c) helpers
-def load_with(ranks_events: Dict[int, List[Dict[str, Any]]], plan, sched, names=None):
+def load_with(ranks_events: Dict[int, List[Dict[str, Any]]], plan, sched, names=None, then=None):
     """load through Trace.load_traces under a symbol-numbering plan and a (virtual) pool schedule"""
     import hta.common.trace as trace_mod
     from hta.common.trace import Trace
@@ -282,7 +282,7 @@ def load_with(ranks_events: Dict[int, List[Dict[str, Any]]], plan, sched, names=
             nondet.SYM.end()
         if vm is not None and len(ranks_events) > 1 and vm.log.get("tasks") != len(ranks_events):
             raise RuntimeError(f"virtual pool was not used as expected: {vm.log}")
-        return ta
+        return then(ta) if then is not None else ta
     finally:
         sc.drop(d)
 
@@ -330,7 +330,7 @@ def check(world) -> Dict[str, Any]:
         k = world["k"]
         ranks = {0: corpus_trace(k, 0), 1: corpus_trace(k, 1)}
         evl = list(ranks.values())
-        base = bundle_mod.bundle(load_with(ranks, None, None))
+        base = load_with(ranks, None, None, then=bundle_mod.bundle)
         execs = 1
         n0, n1 = len(vocab(evl[0])), len(vocab(evl[1]))
 
@@ -358,7 +358,7 @@ def check(world) -> Dict[str, Any]:
         runs = runs[world.get("part", 0)::BUNDLE_PARTS] if "part" in world else runs
         for perms, sched in runs:
             execs += 1
-            got = bundle_mod.bundle(load_with(ranks, plan_for(evl, perms), sched))
+            got = load_with(ranks, plan_for(evl, perms), sched, then=bundle_mod.bundle)
             if got != base:
                 diff = sorted(kk for kk in base if got.get(kk) != base[kk])
                 kind = "numbering" if sched is None else "pool-schedule"
@@ -380,7 +380,7 @@ def check(world) -> Dict[str, Any]:
         execs = 0
         for k in CORPUS:
             ranks = {0: corpus_trace(k, 0), 1: corpus_trace(k, 1)}
-            base = json.loads(json.dumps(bundle_mod.bundle(load_with(ranks, None, None))))
+            base = json.loads(json.dumps(load_with(ranks, None, None, then=bundle_mod.bundle)))
             execs += 2
             if got["bundles"][str(k)] != base:
                 diff = sorted(kk for kk in base if got["bundles"][str(k)].get(kk) != base[kk])
@@ -410,8 +410,9 @@ def _seedrun_main(mp: int) -> None:
     numbering = []
     for k in CORPUS:
         ranks = {0: corpus_trace(k, 0), 1: corpus_trace(k, 1)}
-        ta, _ = htaenv.load_world(ranks, use_mp=bool(mp))
+        ta, d = htaenv.load_world(ranks, use_mp=bool(mp), keep=True)
         out[str(k)] = bundle_mod.bundle(ta)
+        htaenv.scratch().drop(d)
         numbering = ta.t.symbol_table.get_sym_table()[:6]
     print(json.dumps(dict(bundles=out, numbering=numbering, hashseed=os.environ.get("PYTHONHASHSEED"))))
 
